@@ -439,7 +439,7 @@ def run(ctx):
     # ---------------- evaluate
     stats = dict(census_runs=len(census), positions=len(positions), injections=len(plan), oracle_pass=0, dropped=0,
                  blocked=0, later_hang=0, masked_by_argument_error=0, prediction_checked=0, prediction_mismatch=0,
-                 prediction_singleton=0, not_injected=0, per_class={}, per_scenario={}, nprocs={})
+                 prediction_singleton=0, not_injected=0, inconclusive_timeout=0, crashed=0, per_class={}, per_scenario={}, nprocs={})
     table = {}        # (io site id, class) -> dict(obs=set, model=...)
     viol = {}         # key -> (what, replay)
     corr_fail = []
@@ -453,6 +453,11 @@ def run(ctx):
         stats['nprocs'][str(cfg[1])] = stats['nprocs'].get(str(cfg[1]), 0) + 1
         hit = [io for io in lf['io'] if io['hit']]
         n_own = len(p['stack']) + 1           # frames inside the binary (library + harness caller); libc frames move (ASLR)
+        if not hit and r.rc == -9:
+            # the watchdog fired before the program reached the call (machine overloaded): no observation
+            stats['inconclusive_timeout'] += 1
+            ctx.count(json.dumps(case, sort_keys=True), nontrivial=False)
+            continue
         if not hit or hit[0]['addrs'][:n_own] != p['addrs'][:n_own] or hit[0]['idx'] != f['index']:
             stats['not_injected'] += 1
             corr_fail.append(('corr_C11_census_stable: the faulted run did not reach call %d of rank %d with the '
@@ -466,14 +471,22 @@ def run(ctx):
         t['apis'].add(p['api'])
         # --- termination: who came back from API call `seq`
         returned = [k for k, l in enumerate(r.logs) if seq in l['api']]
+        hung = (r.rc == -9)
+        if f['rank'] not in returned and not hung:
+            stats['crashed'] += 1
+            t['obs'].add('CRASH')
+            key = 'crash:' + site_key(p['stack'][0], f['cls'])
+            viol.setdefault(key, ('the program dies inside %s after %s fails with MPI_ERR_%s (exit status %s)' % (p['api'], p['fn'], f['cls'], r.rc),
+                                  dict(case, observed='crash', rc=r.rc, out=r.out[-800:])))
+            continue
         if f['rank'] not in returned:
             stats['blocked'] += 1
             t['obs'].add('BLOCKED(faulted rank)')
             key = 'blocked:faulted-rank:' + site_key(p['stack'][0], f['cls'])
-            viol.setdefault(key, ('the faulted rank never returns from %s after %s fails with MPI_ERR_%s' % (p['api'], p['fn'], f['cls']),
-                                  dict(case, observed='watchdog', rc=r.rc)))
+            viol.setdefault(key, ('the faulted rank never returns from %s after %s fails with MPI_ERR_%s (ranks that returned: %s)' % (
+                p['api'], p['fn'], f['cls'], returned), dict(case, observed='watchdog', returned=returned, rc=r.rc)))
             continue
-        if len(returned) < cfg[1]:
+        if len(returned) < cfg[1] and hung:
             stats['blocked'] += 1
             t['obs'].add('BLOCKED(other ranks)')
             key = 'blocked:' + site_key(p['stack'][0], f['cls'])
@@ -481,7 +494,7 @@ def run(ctx):
                 [k for k in range(cfg[1]) if k not in returned], p['api'], f['rank'], lf['api'][seq][1], p['fn'], f['cls']),
                 dict(case, observed=dict(returned=returned, ret=lf['api'][seq][1]), rc=r.rc)))
             # the return code of the faulted rank is still evaluated below
-        elif r.rc == -9 or not all(l['done'] for l in r.logs):
+        elif hung or not all(l['done'] for l in r.logs):
             stats['later_hang'] += 1
         name, ret, sts = lf['api'][seq]
         raw = lf['masked'].get(seq, ret)
